@@ -19,6 +19,9 @@ try:
 except FileNotFoundError:
     pass
 
+BATCH2 = {'C10c', 'C13c', 'C03c', 'C07c', 'C11c', 'C01c'}
+BATCH3 = set()
+
 def main():
     for sid, (first, by, strengthened) in sorted(RESULTS3.items()):
         src = f'/tmp/seed3/out-{sid}'
@@ -38,6 +41,14 @@ def main():
                 'how': 'tools/seed_confirm3.sh in a scratch worktree outside /repo and /verif: demo run with the change (fails) and without it (passes); repository suite (cargo nextest, lib + integration tests) with the change: 405 passed + only the baseline failure rsp_ql_dstream_semantics (+ the demo itself)',
                 'log': rd(f'/tmp/seed3/confirm-{sid}.log')[-5000:],
             }
+            if '== suite WITH change' not in meta['confirmed_by_main_session']['log']:
+                meta['confirmed_by_main_session']['how'] = ('tools/seed_confirm3.sh (SKIP_SUITE=1) in the scratch worktree the agent worked in: demo run with the change (fails) and without it (passes). '
+                    'The repository suite was run ONCE on a scratch worktree of /repo HEAD carrying this change TOGETHER with the other changes of its batch (they touch disjoint functions; see combined_suite_run): 405 passed, 1 failed = the baseline failure rsp_ql_dstream_semantics')
+                batch = 'suite-batch3.log' if sid in BATCH3 else 'suite-batch2.log'
+                meta['confirmed_by_main_session']['combined_suite_run'] = {
+                    'changes_applied_together': sorted(BATCH3) if sid in BATCH3 else sorted(BATCH2),
+                    'result': '\n'.join(l for l in rd('/tmp/seed3/' + batch).splitlines() if 'Summary' in l or 'FAIL [' in l)[-600:],
+                }
             meta['detection_run'] = {
                 'how': 'tools/seed_detect.sh: patch applied to a scratch worktree of the CURRENT /repo HEAD, quick tier of the property check through tools/check_against.sh',
                 'log': rd(f'/tmp/seed3/detect-{sid}.log')[-5000:],
